@@ -22,8 +22,8 @@ LEVEL = "exploration"
 
 # atom -> (written text, expanded value)    Template:a = "A[{{{1}}}]"
 ATOMS = [("1=p", None), ("a", "a"), (" a", " a"), ("a ", "a "), ("\na", "\na"), ("k=v", None), (" k = v ", None), ("k=\nv", None),
-         ("2=v", None), ("j= {{a|z}} ", None), ("{{a|x}}", "A[x]"), (" {{a| y }} ", " A[ y ] "), ("x y", "x y"), ("m=", None)]
-EXPAND = {"{{a|z}}": "A[z]"}
+         ("2=v", None), ("j= {{a|z}} ", None), ("{{a|x}}", "A[x]"), (" {{a| y }} ", " A[ y ] "), ("x y", "x y"), ("m=", None), ("n={{pad}}", None), ("{{pad}}", " x ")]
+EXPAND = {"{{a|z}}": "A[z]", "{{pad}}": " x "}
 
 ECHO = r"""
 local e = {}
@@ -64,6 +64,7 @@ LIB = {
     "Template:a": "A[{{{1}}}]",
     "Template:n": "N[{{{k|d}}}|{{{1|e}}}]",
     "Template:b": "{{{1}}}",
+    "Template:pad": " x ",
     "Template:w1": "{{#invoke:echo|both|{{{1}}}|k={{{k|}}}}}",
     "Template:w2": "{{w1|{{{1}}}|k={{{k|}}}}}",
 }
